@@ -149,6 +149,16 @@ func (d *badgerNodeDB) cleanMultipartLocked(removeNodes bool) error {
 		}
 	}
 
+	if removeNodes {
+		// Remove the root node records of the aborted restore as well. Their sequence numbers are
+		// released below and Finalize refuses a version that has a root without a sequence number.
+		for _, rootHash := range d.meta.releasableRoots(version, seqs) {
+			if err := batch.Delete(rootNodeKeyFmt.Encode(version, &rootHash)); err != nil {
+				return err
+			}
+		}
+	}
+
 	// Flush batch first. If anything fails, having corrupt multipart info in d.meta shouldn't hurt
 	// us next run.
 	if err := batch.Flush(); err != nil {
